@@ -170,7 +170,7 @@ def _make_kwonly(code):
 
 
 EXC_KINDS = ("ValueError", "KeyError", "ZeroDivisionError", "RuntimeError0", "CustomError", "KwOnlyError", "FileNotFoundError",
-             "StopIteration", "TimeoutError", "Exhausted")
+             "StopIteration", "TimeoutError", "Exhausted", "CancelledError")
 
 
 def make_exc(kind: str):
@@ -192,6 +192,10 @@ def make_exc(kind: str):
         return StopIteration("exhausted")  # e.g. next(it) without default inside the user function
     if kind == "FileNotFoundError":
         return FileNotFoundError(2, "no such thing", "some/file")  # OSError's special constructor
+    if kind == "CancelledError":
+        import concurrent.futures
+
+        return concurrent.futures.CancelledError("inner job was cancelled")  # an ordinary Exception a user function may raise
     if kind == "Exhausted":
         return Exhausted(42)  # a user-defined subclass of StopIteration
     if kind == "WorkerDeath":
@@ -258,7 +262,8 @@ class Fn:
     """
 
     def __init__(self, name, params, defaults=None, n_out=1, out_shape=None, tag="", none_mod=0, seq_out=False,
-                 outer=None, dict_out=None, result_like=False, public_name=None, data_like=False):
+                 outer=None, dict_out=None, result_like=False, public_name=None, data_like=False, scribbles=()):
+        self.scribbles = tuple(scribbles)  # parameters (arrays computed by pipefunc) that the function overwrites in place
         self.data_like = data_like  # wrap the single result in an object that has _data/_mask attributes
         self.public_name = public_name  # what pipefunc sees as __name__ (several functions may share it); logs use `name`
         self.result_like = result_like  # wrap the single result in an object that has a .result() method
@@ -288,7 +293,7 @@ class Fn:
 
     def __reduce__(self):
         return (Fn, (self.name, self.params, self.sig_defaults, self.n_out, self.out_shape, self.tag, self.none_mod,
-                     self.seq_out, self.outer, self.dict_out, self.result_like, self.public_name, self.data_like))
+                     self.seq_out, self.outer, self.dict_out, self.result_like, self.public_name, self.data_like, self.scribbles))
 
     def _one(self, fname, args):
         if self.out_shape is None:
@@ -324,6 +329,14 @@ class Fn:
         for p, d in self.sig_defaults.items():
             kw.setdefault(p, d)
         args = tuple((self.outer.get(p, p), canon(kw[p])) for p in self.params)
+        for p in self.scribbles:
+            # a user function that sorts / normalises the array it was given in place: what it received is its own copy to spoil
+            v = kw.get(p)
+            if isinstance(v, np.ndarray) and v.size and v.flags.writeable:
+                try:
+                    v.flat[0] = "<scribbled-over-by-a-user-function>" if v.dtype == object else 0
+                except Exception:  # noqa: BLE001
+                    pass
         sim = context.CURRENT
         if sim is None:  # called outside a simulation (e.g. by an independent reader)
             return self.build(args)
